@@ -170,7 +170,7 @@ func c20xMutate(r *vRand, sec int, raw *c20SecRaw) string {
 	if raw.state != 2 {
 		return ""
 	}
-	switch r.Intn(7) {
+	switch r.Intn(9) {
 	case 0: // drop the whole cluster layer
 		if sec == 4 {
 			if len(raw.apps) == 0 {
@@ -373,505 +373,698 @@ func TestVerifC20Hist(t *testing.T) {
 	if h == nil {
 		t.Skip("VERIF_OUT not set")
 	}
-	c20xRunHist(t, h, false)
-}
-
-func c20xRunHist(t *testing.T, h *vHarness, exhaustive bool) {
-	defFlats := [][]c20Entry{
-		c20FlatOfGo(sloconfig.DefaultResourceThresholdStrategy()),
-		c20FlatOfGo(&slov1alpha1.ResourceQOSStrategy{}),
-		c20FlatOfGo(sloconfig.DefaultCPUBurstStrategy()),
-		c20FlatOfGo(sloconfig.DefaultSystemStrategy()),
-	}
-	defLayers := make([]c20Layer, 5)
-	for i := range defFlats {
-		defLayers[i] = c20LayerOf(defFlats[i])
-	}
-	scheme := runtime.NewScheme()
-	_ = corev1.AddToScheme(scheme) // (not the whole client-go scheme: the fake tracker rebuilds a REST mapper from it on every write)
-	_ = slov1alpha1.AddToScheme(scheme)
-	ctx := context.TODO()
-
-	n := h.N(1500, 20000)
+	env := c20xNewEnv()
+	n := h.N(1500, 12000)
 	for idx := 0; idx < n; idx++ {
 		r := h.Begin(idx)
 		if r == nil {
 			continue
 		}
-		for s, fl := range defFlats {
-			for _, e := range fl {
-				h.Op("def %d %s", s, c20Line(e))
-			}
-		}
-		w := &c20xWorld{t: t, scheme: scheme, cl: fake.NewClientBuilder().WithScheme(scheme).Build()}
-		w.start()
-
-		failed := map[string]bool{}
-		fail := func(fp, format string, a ...interface{}) {
-			if !failed[fp] {
-				failed[fp] = true
-				h.Fail(fp, format, a...)
-			}
-		}
-
-		// the ConfigMap as it evolves, and the oracle's memory
-		cur := make([]c20SecRaw, 5)
-		extra := map[string]string{}
-		dataNil := false
-		good := make([]c20Good, 5)    // last parsable (or absent) content per section since the controller started
-		goodAlt := make([]c20Good, 5) // same, reading a ConfigMap deletion as "all sections absent"
-		for s := range good {
-			good[s], goodAlt[s] = c20Good{absent: true}, c20Good{absent: true}
-		}
-		textIDs := map[string]int{}
-		nodes := map[int]map[int]int{} // node -> labels
-		prevExp := map[int][]c20Layer{}
-
-		buildData := func() (map[string]string, []int) {
-			data := map[string]string{}
-			for s := 0; s < 5; s++ {
-				if cur[s].state != 0 {
-					data[c20SecKeys[s]] = cur[s].text
-				}
-			}
-			for k, v := range extra {
-				data[k] = v
-			}
-			ident := []int{0}
-			if len(data) == 0 && dataNil {
-				data = nil
-				ident[0] = 1
-			}
-			for _, k := range append(append([]string{}, c20SecKeys...), c20xExtraKeys...) {
-				txt, ok := data[k]
-				if !ok {
-					ident = append(ident, 0)
-					continue
-				}
-				id, seen := textIDs[k+"\x00"+txt]
-				if !seen {
-					id = len(textIDs) + 1
-					textIDs[k+"\x00"+txt] = id
-				}
-				ident = append(ident, id)
-			}
-			return data, ident
-		}
-		// emit the event's sections as ops and update the oracle's memory from the texts
-		emitCM := func(kind int, ident []int) {
-			h.Op("hev %d %s", kind, vIntsI(ident))
-			for s := 0; s < 5; s++ {
-				c20EmitSection(h, s, cur[s], fail)
-				switch cur[s].state {
-				case 0:
-					good[s], goodAlt[s] = c20Good{absent: true}, c20Good{absent: true}
-				case 2:
-					cp := c20xCopySec(cur[s])
-					good[s], goodAlt[s] = c20Good{sec: cp}, c20Good{sec: cp}
-				}
-				h.Tag(fmt.Sprintf("hsec-%s:%s", c20SecNames[s], []string{"absent", "malformed", "parsed"}[cur[s].state]))
-			}
-			h.Op("end")
-		}
-		newCMObj := func(data map[string]string) *corev1.ConfigMap {
-			cm := &corev1.ConfigMap{Data: data}
-			cm.Name, cm.Namespace = sloconfig.SLOCtrlConfigMap, sloconfig.ConfigNameSpace
-			return cm
-		}
-		apiWriteCM := func(data map[string]string) {
-			if w.cmObj == nil {
-				w.must(w.cl.Create(ctx, newCMObj(data)), "create cm")
-			} else {
-				got := &corev1.ConfigMap{}
-				w.must(w.cl.Get(ctx, types.NamespacedName{Namespace: sloconfig.ConfigNameSpace, Name: sloconfig.SLOCtrlConfigMap}, got), "get cm")
-				got.Data = data
-				w.must(w.cl.Update(ctx, got), "update cm")
-			}
-		}
-
-		nSteps := r.Range(3, 8)
-		if r.Chance(1, 12) {
-			nSteps = r.Range(9, 12)
-		}
-		h.Tag(fmt.Sprintf("hsteps:%d", nSteps))
-		forced := []string{}
-		if !r.Chance(1, 8) {
-			if r.Bool() {
-				forced = []string{"cm", "node"}
-			} else {
-				forced = []string{"node", "cm"}
-			}
-		}
-		sawUnset := false
-		for stp := 0; stp < nSteps; stp++ {
-			// ---- choose a step
-			kind := ""
-			if stp < len(forced) {
-				kind = forced[stp]
-			} else {
-				x := r.Intn(100)
-				switch {
-				case x < 45:
-					kind = "cm"
-				case x < 50:
-					kind = "cmdel"
-				case x < 53:
-					kind = "foreign"
-				case x < 65:
-					kind = "node"
-				case x < 85:
-					kind = "relabel"
-				case x < 88:
-					kind = "touch"
-				case x < 93:
-					kind = "nodedel"
-				default:
-					kind = "restart"
-				}
-			}
-			if (kind == "relabel" || kind == "touch" || kind == "nodedel") && len(nodes) == 0 {
-				kind = "node"
-			}
-			if kind == "node" && len(nodes) >= 3 {
-				kind = "relabel"
-			}
-			if kind == "cmdel" && w.cmObj == nil {
-				kind = "cm"
-			}
-			names := []int{}
-			for nm := range nodes {
-				names = append(names, nm)
-			}
-			sort.Ints(names)
-
-			switch kind {
-			case "cm":
-				if w.cmObj == nil { // ---- create
-					for s := 0; s < 5; s++ {
-						cur[s] = c20SecRaw{state: 0}
-						if r.Bool() {
-							cur[s] = c20GenSection(r, s)
-						}
-					}
-					extra = map[string]string{}
-					if r.Chance(1, 5) {
-						extra[c20xExtraKeys[0]] = `{"enable":true}`
-					}
-					dataNil = r.Bool()
-					data, ident := buildData()
-					apiWriteCM(data)
-					w.cmObj = newCMObj(data)
-					emitCM(1, ident)
-					h.Tag("hstep:cm-create")
-					w.handler.Create(ctx, event.TypedCreateEvent[client.Object]{Object: w.cmObj.DeepCopy()}, w.q)
-				} else { // ---- update
-					variation := ""
-					present, absent := []int{}, []int{}
-					for s := 0; s < 5; s++ {
-						if cur[s].state != 0 {
-							present = append(present, s)
-						} else {
-							absent = append(absent, s)
-						}
-					}
-					switch x := r.Intn(20); {
-					case x < 2:
-						variation = "nothing"
-					case x < 4:
-						variation = "other-key"
-						k := c20xExtraKeys[r.Intn(2)]
-						if _, ok := extra[k]; ok && r.Bool() {
-							delete(extra, k)
-						} else {
-							extra[k] = fmt.Sprintf(`{"v":%d}`, r.Intn(3))
-						}
-					case x < 7 && len(present) > 0:
-						variation = "remove-key"
-						for i, s := range r.Perm(len(present)) {
-							if i == 0 || r.Chance(1, 4) {
-								cur[present[s]] = c20SecRaw{state: 0}
-							}
-						}
-					case x < 9 && len(absent) > 0:
-						variation = "add-key"
-						s := absent[r.Intn(len(absent))]
-						cur[s] = c20GenSection(r, s)
-						if cur[s].state == 0 {
-							cur[s] = c20SecRaw{state: 2, text: "{}"}
-						}
-					case x < 15 && len(present) > 0:
-						s := present[r.Intn(len(present))]
-						cp := c20xCopySec(cur[s])
-						if tag := c20xMutate(r, s, &cp); tag != "" {
-							cp.text = c20xRender(s, cp)
-							cur[s] = cp
-							variation = "edit:" + tag
-						} else {
-							cur[s] = c20GenSection(r, s)
-							variation = "regen"
-						}
-					case x < 16 && len(present) > 0:
-						variation = "break"
-						s := present[r.Intn(len(present))]
-						cur[s] = c20SecRaw{state: 1, text: []string{"invalid_content", "{", "[]", ""}[r.Intn(4)]}
-					default:
-						variation = "regen"
-						for i, s := range r.Perm(5) {
-							if i == 0 || r.Chance(1, 5) {
-								cur[s] = c20GenSection(r, s)
-							}
-						}
-					}
-					if r.Chance(1, 10) {
-						dataNil = !dataNil
-					}
-					data, ident := buildData()
-					old := w.cmObj
-					apiWriteCM(data)
-					w.cmObj = newCMObj(data)
-					emitCM(2, ident)
-					h.Tag("hstep:cm-update")
-					h.Tag("hcmupd:" + variation)
-					w.handler.Update(ctx, event.TypedUpdateEvent[client.Object]{ObjectOld: old.DeepCopy(), ObjectNew: w.cmObj.DeepCopy()}, w.q)
-				}
-			case "cmdel":
-				h.Op("hdel")
-				h.Tag("hstep:cm-delete")
-				w.must(w.cl.Delete(ctx, newCMObj(nil)), "delete cm")
-				old := w.cmObj
-				w.cmObj = nil
-				for s := range goodAlt {
-					goodAlt[s] = c20Good{absent: true}
-					cur[s] = c20SecRaw{state: 0}
-				}
-				w.handler.Delete(ctx, event.TypedDeleteEvent[client.Object]{Object: old.DeepCopy()}, w.q)
-			case "foreign":
-				h.Op("hforeign")
-				h.Tag("hstep:cm-foreign")
-				f := &corev1.ConfigMap{Data: map[string]string{c20SecKeys[2]: `{"clusterStrategy":{"cpuBurstPercent":1}}`}}
-				f.Name, f.Namespace = sloconfig.SLOCtrlConfigMap, "default"
-				if r.Bool() {
-					f.Name, f.Namespace = "other-config", sloconfig.ConfigNameSpace
-				}
-				if r.Bool() {
-					w.handler.Create(ctx, event.TypedCreateEvent[client.Object]{Object: f}, w.q)
-				} else {
-					g := f.DeepCopy()
-					g.Data = map[string]string{}
-					w.handler.Update(ctx, event.TypedUpdateEvent[client.Object]{ObjectOld: g, ObjectNew: f}, w.q)
-				}
-			case "node":
-				nm := 1
-				for nodes[nm] != nil {
-					nm++
-				}
-				labels := c20xGenLabels(r)
-				nodes[nm] = labels
-				h.Op("hnode 0 %d %d %s", nm, len(labels), vIntsI(c20xLabelsKV(labels)))
-				h.Tag("hstep:node-add")
-				obj := c20xNodeObj(nm, labels, false)
-				w.must(w.cl.Create(ctx, obj.DeepCopy()), "create node")
-				w.nodeH.Create(ctx, event.TypedCreateEvent[client.Object]{Object: obj}, w.q)
-			case "relabel", "touch":
-				nm := names[r.Intn(len(names))]
-				oldLabels := nodes[nm]
-				labels := oldLabels
-				if kind == "relabel" {
-					labels = c20xGenLabels(r)
-					if r.Chance(1, 3) { // flip exactly one label: moves between selector layers
-						labels = map[int]int{}
-						for k, v := range oldLabels {
-							labels[k] = v
-						}
-						k := r.Range(1, 3)
-						if _, ok := labels[k]; ok && r.Bool() {
-							delete(labels, k)
-						} else {
-							labels[k] = 1 + (labels[k] % 2)
-						}
-					}
-				}
-				nodes[nm] = labels
-				h.Op("hnode 1 %d %d %s", nm, len(labels), vIntsI(c20xLabelsKV(labels)))
-				h.Tag("hstep:node-" + kind)
-				got := &corev1.Node{}
-				w.must(w.cl.Get(ctx, types.NamespacedName{Name: c20xNodeName(nm)}, got), "get node")
-				newObj := c20xNodeObj(nm, labels, kind == "touch")
-				got.Labels, got.Annotations = newObj.Labels, newObj.Annotations
-				w.must(w.cl.Update(ctx, got), "update node")
-				w.nodeH.Update(ctx, event.TypedUpdateEvent[client.Object]{ObjectOld: c20xNodeObj(nm, oldLabels, false), ObjectNew: newObj}, w.q)
-			case "nodedel":
-				nm := names[r.Intn(len(names))]
-				oldLabels := nodes[nm]
-				delete(nodes, nm)
-				delete(prevExp, nm)
-				h.Op("hnode 2 %d 0", nm)
-				h.Tag("hstep:node-delete")
-				w.must(w.cl.Delete(ctx, c20xNodeObj(nm, nil, false)), "delete node")
-				w.nodeH.Delete(ctx, event.TypedDeleteEvent[client.Object]{Object: c20xNodeObj(nm, oldLabels, false)}, w.q)
-			case "restart":
-				cmFirst := r.Bool()
-				h.Op("hrestart %d", vB(cmFirst))
-				h.Tag("hstep:restart")
-				w.start()
-				// the new process knows nothing of earlier texts: unparsable sections fall back to the default
-				for s := range good {
-					good[s], goodAlt[s] = c20Good{absent: true}, c20Good{absent: true}
-					if w.cmObj != nil && cur[s].state == 2 {
-						cp := c20xCopySec(cur[s])
-						good[s], goodAlt[s] = c20Good{sec: cp}, c20Good{sec: cp}
-					}
-				}
-				cmEv := func() {
-					if w.cmObj != nil {
-						w.handler.Create(ctx, event.TypedCreateEvent[client.Object]{Object: w.cmObj.DeepCopy()}, w.q)
-						w.drain()
-					}
-				}
-				listEv := func() {
-					for _, nm := range names {
-						w.nodeH.Create(ctx, event.TypedCreateEvent[client.Object]{Object: c20xNodeObj(nm, nodes[nm], false)}, w.q)
-					}
-					sl := &slov1alpha1.NodeSLOList{}
-					w.must(w.cl.List(ctx, sl), "list nodeslo")
-					for i := range sl.Items {
-						w.q.Add(reconcile.Request{NamespacedName: types.NamespacedName{Name: sl.Items[i].Name}})
-					}
-					w.drain()
-				}
-				if cmFirst {
-					cmEv()
-					listEv()
-				} else {
-					listEv()
-					cmEv()
-				}
-			}
-			panicked := h.Guard(func() { w.drain() })
-
-			// ---- observation: every NodeSLO in the API, and the cache's view per node
-			h.Op("hobs")
-			if panicked {
-				h.Obs("panic")
-				fail("C20:panic", "Reconcile panicked")
-			}
-			sl := &slov1alpha1.NodeSLOList{}
-			w.must(w.cl.List(ctx, sl), "list nodeslo")
-			stored := map[int][][]c20Entry{}
-			var sloNames []int
-			for i := range sl.Items {
-				nm, err := strconv.Atoi(strings.TrimPrefix(sl.Items[i].Name, "n"))
-				if err != nil {
-					nm = 999
-				}
-				fl, isNil := c20SectionFlats(&sl.Items[i].Spec)
-				for s := range isNil {
-					if isNil[s] {
-						fl[s] = []c20Entry{{[]int{999999}, -1}} // a nil section: never equal to anything expected
-					}
-				}
-				stored[nm] = fl
-				sloNames = append(sloNames, nm)
-			}
-			sort.Ints(sloNames)
-			for _, nm := range sloNames {
-				for s, fl := range stored[nm] {
-					for _, e := range fl {
-						h.Obs("s %d %d %s", nm, s, c20Line(e))
-					}
-				}
-			}
-			names = names[:0]
-			for nm := range nodes {
-				names = append(names, nm)
-			}
-			sort.Ints(names)
-			h.Tag(fmt.Sprintf("hnodes:%d", len(names)))
-			for _, nm := range names {
-				labels := nodes[nm]
-				var spec *slov1alpha1.NodeSLOSpec
-				if h.Guard(func() { spec, _ = w.rec.getNodeSLOSpec(c20xNodeObj(nm, labels, false), nil) }) || spec == nil {
-					h.Obs("g %d panic", nm)
-					fail("C20:panic", "getNodeSLOSpec panicked or returned nil")
-					continue
-				}
-				view, isNil := c20SectionFlats(spec)
-				for s := range isNil {
-					if isNil[s] {
-						view[s] = []c20Entry{{[]int{999999}, -1}}
-					}
-				}
-				sto, have := stored[nm]
-				if have && c20xFlatsEq(sto, view) {
-					h.Obs("g %d same", nm)
-				} else {
-					for s, fl := range view {
-						for _, e := range fl {
-							h.Obs("g %d %d %s", nm, s, c20Line(e))
-						}
-					}
-				}
-				// ---- oracle: every field of every section, from the current texts and labels
-				if !have {
-					fail("C20:hist:nodeslo-missing", "node n%d exists and was reconciled but has no NodeSLO (step %d %s)", nm, stp, kind)
-					continue
-				}
-				exps := make([]c20Layer, 5)
-				anyUnset, anyOther := false, false
-				for s := 0; s < 5; s++ {
-					exp := c20xExpect(s, good[s], labels, defLayers[s])
-					exps[s] = exp
-					if pe, ok := prevExp[nm]; ok {
-						for p, v := range pe[s] {
-							if nv, ok := exp[p]; !ok {
-								anyUnset = true
-							} else if nv != v {
-								anyOther = true
-							}
-						}
-						for p := range exp {
-							if _, ok := pe[s][p]; !ok {
-								anyOther = true
-							}
-						}
-					}
-					alt := c20xExpect(s, goodAlt[s], labels, defLayers[s])
-					obsS, obsV := c20LayerOf(sto[s]), c20LayerOf(view[s])
-					if c20LayerEq(obsS, exp) || c20LayerEq(obsS, alt) {
-						continue
-					}
-					if c20LayerEq(obsV, exp) || c20LayerEq(obsV, alt) {
-						d := c20Diffs(obsS, exp)[0]
-						fail("C20:hist:nodeslo-stale:"+c20SecNames[s], "the NodeSLO of n%d does not carry the recomputed spec: section %s field %s: %s (after step %d %s, labels %v)",
-							nm, c20SecNames[s], c20PathNames(d.p), d.what, stp, kind, labels)
-					} else {
-						d := c20Diffs(obsV, exp)[0]
-						fail("C20:hist:cache-stale:"+c20SecNames[s], "the cached config does not follow the current ConfigMap for n%d: section %s field %s: %s (after step %d %s, labels %v)",
-							nm, c20SecNames[s], c20PathNames(d.p), d.what, stp, kind, labels)
-					}
-				}
-				prevExp[nm] = exps
-				if anyUnset {
-					h.Tag("hdelivery:set-to-unset")
-					sawUnset = true
-					if !anyOther {
-						h.Tag("hdelivery:unset-only")
-					}
-				}
-			}
-		}
-		if w.apiError != "" {
-			h.Tag("hapi-error")
-			h.Extra("last_api_error", w.apiError)
-			fail("C20:hist:harness-api", "fake API call failed: %s", w.apiError)
-		}
-		if sawUnset {
-			h.Nontrivial()
-		}
-		h.End()
+		c := env.newCase(h)
+		c20xRandomHistory(c, r)
+		c.finish()
 	}
 	h.Close("history of 3-12 steps on one fake API + real handlers + real Reconcile: slo-controller ConfigMap create / update (nothing, unrelated key only, " +
 		"remove key(s) only, add a key only, edit that unsets a layer/entry/field or changes a value, break a section, regenerate sections) / delete, foreign ConfigMap events, " +
 		"node add / relabel (random or one label flipped) / annotation-only update / delete, controller restart (ConfigMap event before or after the node list); " +
 		"after each step every enqueued request is reconciled and all NodeSLO specs are read back; non-trivial = some step where a field delivered to a node goes from set to unset; distinct by op lines")
+}
+
+// ---------------------------------------------------------------- one case: world + oracle memory + step methods
+
+type c20xEnv struct {
+	defFlats  [][]c20Entry
+	defLayers []c20Layer
+	scheme    *runtime.Scheme
+}
+
+func c20xNewEnv() *c20xEnv {
+	e := &c20xEnv{}
+	e.defFlats = [][]c20Entry{
+		c20FlatOfGo(sloconfig.DefaultResourceThresholdStrategy()),
+		c20FlatOfGo(&slov1alpha1.ResourceQOSStrategy{}),
+		c20FlatOfGo(sloconfig.DefaultCPUBurstStrategy()),
+		c20FlatOfGo(sloconfig.DefaultSystemStrategy()),
+	}
+	e.defLayers = make([]c20Layer, 5)
+	for i := range e.defFlats {
+		e.defLayers[i] = c20LayerOf(e.defFlats[i])
+	}
+	e.scheme = runtime.NewScheme()
+	_ = corev1.AddToScheme(e.scheme) // (not the whole client-go scheme: the fake tracker rebuilds a REST mapper from it on every write)
+	_ = slov1alpha1.AddToScheme(e.scheme)
+	return e
+}
+
+type c20xCase struct {
+	env    *c20xEnv
+	h      *vHarness
+	w      *c20xWorld
+	ctx    context.Context
+	failed map[string]bool
+
+	// the ConfigMap as it evolves, and the oracle's memory
+	cur      []c20SecRaw
+	extra    map[string]string
+	dataNil  bool
+	good     []c20Good // last parsable (or absent) content per section since the controller started
+	goodAlt  []c20Good // same, reading a ConfigMap deletion as "all sections absent"
+	textIDs  map[string]int
+	nodes    map[int]map[int]int // node -> labels
+	prevExp  map[int][]c20Layer
+	stepNo   int
+	sawUnset bool
+}
+
+func (e *c20xEnv) newCase(h *vHarness) *c20xCase {
+	for s, fl := range e.defFlats {
+		for _, x := range fl {
+			h.Op("def %d %s", s, c20Line(x))
+		}
+	}
+	c := &c20xCase{env: e, h: h, ctx: context.TODO(), failed: map[string]bool{}, cur: make([]c20SecRaw, 5), extra: map[string]string{},
+		good: make([]c20Good, 5), goodAlt: make([]c20Good, 5), textIDs: map[string]int{}, nodes: map[int]map[int]int{}, prevExp: map[int][]c20Layer{}}
+	c.w = &c20xWorld{scheme: e.scheme, cl: fake.NewClientBuilder().WithScheme(e.scheme).Build()}
+	c.w.start()
+	for s := range c.good {
+		c.good[s], c.goodAlt[s] = c20Good{absent: true}, c20Good{absent: true}
+	}
+	return c
+}
+
+func (c *c20xCase) fail(fp, format string, a ...interface{}) {
+	if !c.failed[fp] {
+		c.failed[fp] = true
+		c.h.Fail(fp, format, a...)
+	}
+}
+
+func (c *c20xCase) finish() {
+	if c.w.apiError != "" {
+		c.h.Tag("hapi-error")
+		c.h.Extra("last_api_error", c.w.apiError)
+		c.fail("C20:hist:harness-api", "fake API call failed: %s", c.w.apiError)
+	}
+	if c.sawUnset {
+		c.h.Nontrivial()
+	}
+	c.h.End()
+}
+
+func (c *c20xCase) names() []int {
+	names := []int{}
+	for nm := range c.nodes {
+		names = append(names, nm)
+	}
+	sort.Ints(names)
+	return names
+}
+
+func (c *c20xCase) buildData() (map[string]string, []int) {
+	data := map[string]string{}
+	for s := 0; s < 5; s++ {
+		if c.cur[s].state != 0 {
+			data[c20SecKeys[s]] = c.cur[s].text
+		}
+	}
+	for k, v := range c.extra {
+		data[k] = v
+	}
+	ident := []int{0}
+	if len(data) == 0 && c.dataNil {
+		data = nil
+		ident[0] = 1
+	}
+	for _, k := range append(append([]string{}, c20SecKeys...), c20xExtraKeys...) {
+		txt, ok := data[k]
+		if !ok {
+			ident = append(ident, 0)
+			continue
+		}
+		id, seen := c.textIDs[k+"\x00"+txt]
+		if !seen {
+			id = len(c.textIDs) + 1
+			c.textIDs[k+"\x00"+txt] = id
+		}
+		ident = append(ident, id)
+	}
+	return data, ident
+}
+
+func c20xNewCMObj(data map[string]string) *corev1.ConfigMap {
+	cm := &corev1.ConfigMap{Data: data}
+	cm.Name, cm.Namespace = sloconfig.SLOCtrlConfigMap, sloconfig.ConfigNameSpace
+	return cm
+}
+
+// stepCMWrite: the ConfigMap (c.cur / c.extra / c.dataNil as just edited) is created or updated in the API and the
+// matching Create / Update event (old = the object before) is delivered to the real handler.
+func (c *c20xCase) stepCMWrite(variation string) {
+	h, w := c.h, c.w
+	data, ident := c.buildData()
+	kind := 1
+	old := w.cmObj
+	if old == nil {
+		w.must(w.cl.Create(c.ctx, c20xNewCMObj(data)), "create cm")
+	} else {
+		kind = 2
+		got := &corev1.ConfigMap{}
+		w.must(w.cl.Get(c.ctx, types.NamespacedName{Namespace: sloconfig.ConfigNameSpace, Name: sloconfig.SLOCtrlConfigMap}, got), "get cm")
+		got.Data = data
+		w.must(w.cl.Update(c.ctx, got), "update cm")
+	}
+	w.cmObj = c20xNewCMObj(data)
+	// the event's sections as ops; the oracle's memory follows the texts
+	h.Op("hev %d %s", kind, vIntsI(ident))
+	for s := 0; s < 5; s++ {
+		c20EmitSection(h, s, c.cur[s], c.fail)
+		switch c.cur[s].state {
+		case 0:
+			c.good[s], c.goodAlt[s] = c20Good{absent: true}, c20Good{absent: true}
+		case 2:
+			cp := c20xCopySec(c.cur[s])
+			c.good[s], c.goodAlt[s] = c20Good{sec: cp}, c20Good{sec: cp}
+		}
+		h.Tag(fmt.Sprintf("hsec-%s:%s", c20SecNames[s], []string{"absent", "malformed", "parsed"}[c.cur[s].state]))
+	}
+	h.Op("end")
+	if kind == 1 {
+		h.Tag("hstep:cm-create")
+		w.handler.Create(c.ctx, event.TypedCreateEvent[client.Object]{Object: w.cmObj.DeepCopy()}, w.q)
+	} else {
+		h.Tag("hstep:cm-update")
+		h.Tag("hcmupd:" + variation)
+		w.handler.Update(c.ctx, event.TypedUpdateEvent[client.Object]{ObjectOld: old.DeepCopy(), ObjectNew: w.cmObj.DeepCopy()}, w.q)
+	}
+	c.observe("cm")
+}
+
+func (c *c20xCase) stepCMDelete() {
+	h, w := c.h, c.w
+	h.Op("hdel")
+	h.Tag("hstep:cm-delete")
+	w.must(w.cl.Delete(c.ctx, c20xNewCMObj(nil)), "delete cm")
+	old := w.cmObj
+	w.cmObj = nil
+	for s := range c.goodAlt {
+		c.goodAlt[s] = c20Good{absent: true}
+		c.cur[s] = c20SecRaw{state: 0}
+	}
+	c.extra = map[string]string{}
+	w.handler.Delete(c.ctx, event.TypedDeleteEvent[client.Object]{Object: old.DeepCopy()}, w.q)
+	c.observe("cmdel")
+}
+
+func (c *c20xCase) stepForeign(otherName, create bool) {
+	h, w := c.h, c.w
+	h.Op("hforeign")
+	h.Tag("hstep:cm-foreign")
+	f := &corev1.ConfigMap{Data: map[string]string{c20SecKeys[2]: `{"clusterStrategy":{"cpuBurstPercent":1}}`}}
+	f.Name, f.Namespace = sloconfig.SLOCtrlConfigMap, "default"
+	if otherName {
+		f.Name, f.Namespace = "other-config", sloconfig.ConfigNameSpace
+	}
+	if create {
+		w.handler.Create(c.ctx, event.TypedCreateEvent[client.Object]{Object: f}, w.q)
+	} else {
+		g := f.DeepCopy()
+		g.Data = map[string]string{}
+		w.handler.Update(c.ctx, event.TypedUpdateEvent[client.Object]{ObjectOld: g, ObjectNew: f}, w.q)
+	}
+	c.observe("foreign")
+}
+
+func (c *c20xCase) stepNodeAdd(nm int, labels map[int]int) {
+	h, w := c.h, c.w
+	c.nodes[nm] = labels
+	h.Op("hnode 0 %d %d %s", nm, len(labels), vIntsI(c20xLabelsKV(labels)))
+	h.Tag("hstep:node-add")
+	obj := c20xNodeObj(nm, labels, false)
+	w.must(w.cl.Create(c.ctx, obj.DeepCopy()), "create node")
+	w.nodeH.Create(c.ctx, event.TypedCreateEvent[client.Object]{Object: obj}, w.q)
+	c.observe("node")
+}
+
+func (c *c20xCase) stepNodeUpdate(nm int, labels map[int]int, touch bool) {
+	h, w := c.h, c.w
+	oldLabels := c.nodes[nm]
+	c.nodes[nm] = labels
+	h.Op("hnode 1 %d %d %s", nm, len(labels), vIntsI(c20xLabelsKV(labels)))
+	kind := "relabel"
+	if touch {
+		kind = "touch"
+	}
+	h.Tag("hstep:node-" + kind)
+	got := &corev1.Node{}
+	w.must(w.cl.Get(c.ctx, types.NamespacedName{Name: c20xNodeName(nm)}, got), "get node")
+	newObj := c20xNodeObj(nm, labels, touch)
+	got.Labels, got.Annotations = newObj.Labels, newObj.Annotations
+	w.must(w.cl.Update(c.ctx, got), "update node")
+	w.nodeH.Update(c.ctx, event.TypedUpdateEvent[client.Object]{ObjectOld: c20xNodeObj(nm, oldLabels, false), ObjectNew: newObj}, w.q)
+	c.observe(kind)
+}
+
+func (c *c20xCase) stepNodeDelete(nm int) {
+	h, w := c.h, c.w
+	oldLabels := c.nodes[nm]
+	delete(c.nodes, nm)
+	delete(c.prevExp, nm)
+	h.Op("hnode 2 %d 0", nm)
+	h.Tag("hstep:node-delete")
+	w.must(w.cl.Delete(c.ctx, c20xNodeObj(nm, nil, false)), "delete node")
+	w.nodeH.Delete(c.ctx, event.TypedDeleteEvent[client.Object]{Object: c20xNodeObj(nm, oldLabels, false)}, w.q)
+	c.observe("nodedel")
+}
+
+func (c *c20xCase) stepRestart(cmFirst bool) {
+	h, w := c.h, c.w
+	h.Op("hrestart %d", vB(cmFirst))
+	h.Tag("hstep:restart")
+	w.start()
+	// the new process knows nothing of earlier texts: unparsable sections fall back to the default
+	for s := range c.good {
+		c.good[s], c.goodAlt[s] = c20Good{absent: true}, c20Good{absent: true}
+		if w.cmObj != nil && c.cur[s].state == 2 {
+			cp := c20xCopySec(c.cur[s])
+			c.good[s], c.goodAlt[s] = c20Good{sec: cp}, c20Good{sec: cp}
+		}
+	}
+	cmEv := func() {
+		if w.cmObj != nil {
+			w.handler.Create(c.ctx, event.TypedCreateEvent[client.Object]{Object: w.cmObj.DeepCopy()}, w.q)
+			c.drain()
+		}
+	}
+	listEv := func() {
+		for _, nm := range c.names() {
+			w.nodeH.Create(c.ctx, event.TypedCreateEvent[client.Object]{Object: c20xNodeObj(nm, c.nodes[nm], false)}, w.q)
+		}
+		sl := &slov1alpha1.NodeSLOList{}
+		w.must(w.cl.List(c.ctx, sl), "list nodeslo")
+		for i := range sl.Items {
+			w.q.Add(reconcile.Request{NamespacedName: types.NamespacedName{Name: sl.Items[i].Name}})
+		}
+		c.drain()
+	}
+	if cmFirst {
+		cmEv()
+		listEv()
+	} else {
+		listEv()
+		cmEv()
+	}
+	c.observe("restart")
+}
+
+func (c *c20xCase) drain() {
+	if c.h.Guard(func() { c.w.drain() }) {
+		c.h.Obs("panic")
+		c.fail("C20:panic", "Reconcile panicked")
+		c.w.q.items = nil
+	}
+}
+
+// observe: reconcile everything that was enqueued, then read back every NodeSLO and the cache's view per node, and
+// evaluate the layering statement from scratch on the current texts + labels for every field of every node.
+func (c *c20xCase) observe(kind string) {
+	h, w := c.h, c.w
+	c.drain()
+	stp := c.stepNo
+	c.stepNo++
+	h.Op("hobs")
+	sl := &slov1alpha1.NodeSLOList{}
+	w.must(w.cl.List(c.ctx, sl), "list nodeslo")
+	stored := map[int][][]c20Entry{}
+	var sloNames []int
+	for i := range sl.Items {
+		nm, err := strconv.Atoi(strings.TrimPrefix(sl.Items[i].Name, "n"))
+		if err != nil {
+			nm = 999
+		}
+		fl, isNil := c20SectionFlats(&sl.Items[i].Spec)
+		for s := range isNil {
+			if isNil[s] {
+				fl[s] = []c20Entry{{[]int{999999}, -1}} // a nil section: never equal to anything expected
+			}
+		}
+		stored[nm] = fl
+		sloNames = append(sloNames, nm)
+	}
+	sort.Ints(sloNames)
+	for _, nm := range sloNames {
+		for s, fl := range stored[nm] {
+			for _, e := range fl {
+				h.Obs("s %d %d %s", nm, s, c20Line(e))
+			}
+		}
+	}
+	names := c.names()
+	h.Tag(fmt.Sprintf("hnodes:%d", len(names)))
+	for _, nm := range names {
+		labels := c.nodes[nm]
+		var spec *slov1alpha1.NodeSLOSpec
+		if h.Guard(func() { spec, _ = w.rec.getNodeSLOSpec(c20xNodeObj(nm, labels, false), nil) }) || spec == nil {
+			h.Obs("g %d panic", nm)
+			c.fail("C20:panic", "getNodeSLOSpec panicked or returned nil")
+			continue
+		}
+		view, isNil := c20SectionFlats(spec)
+		for s := range isNil {
+			if isNil[s] {
+				view[s] = []c20Entry{{[]int{999999}, -1}}
+			}
+		}
+		sto, have := stored[nm]
+		if have && c20xFlatsEq(sto, view) {
+			h.Obs("g %d same", nm)
+		} else {
+			for s, fl := range view {
+				for _, e := range fl {
+					h.Obs("g %d %d %s", nm, s, c20Line(e))
+				}
+			}
+		}
+		// ---- oracle
+		if !have {
+			c.fail("C20:hist:nodeslo-missing", "node n%d exists and was reconciled but has no NodeSLO (step %d %s)", nm, stp, kind)
+			continue
+		}
+		exps := make([]c20Layer, 5)
+		anyUnset, anyOther := false, false
+		for s := 0; s < 5; s++ {
+			exp := c20xExpect(s, c.good[s], labels, c.env.defLayers[s])
+			exps[s] = exp
+			if pe, ok := c.prevExp[nm]; ok {
+				for p, v := range pe[s] {
+					if nv, ok := exp[p]; !ok {
+						anyUnset = true
+					} else if nv != v {
+						anyOther = true
+					}
+				}
+				for p := range exp {
+					if _, ok := pe[s][p]; !ok {
+						anyOther = true
+					}
+				}
+			}
+			alt := c20xExpect(s, c.goodAlt[s], labels, c.env.defLayers[s])
+			obsS, obsV := c20LayerOf(sto[s]), c20LayerOf(view[s])
+			if c20LayerEq(obsS, exp) || c20LayerEq(obsS, alt) {
+				continue
+			}
+			if c20LayerEq(obsV, exp) || c20LayerEq(obsV, alt) {
+				d := c20Diffs(obsS, exp)[0]
+				c.fail("C20:hist:nodeslo-stale:"+c20SecNames[s], "the NodeSLO of n%d does not carry the recomputed spec: section %s field %s: %s (after step %d %s, labels %v)",
+					nm, c20SecNames[s], c20PathNames(d.p), d.what, stp, kind, labels)
+			} else {
+				d := c20Diffs(obsV, exp)[0]
+				c.fail("C20:hist:cache-stale:"+c20SecNames[s], "the cached config does not follow the current ConfigMap for n%d: section %s field %s: %s (after step %d %s, labels %v)",
+					nm, c20SecNames[s], c20PathNames(d.p), d.what, stp, kind, labels)
+			}
+		}
+		c.prevExp[nm] = exps
+		if anyUnset {
+			h.Tag("hdelivery:set-to-unset")
+			c.sawUnset = true
+			if !anyOther {
+				h.Tag("hdelivery:unset-only")
+			}
+		}
+	}
+}
+
+// ---------------------------------------------------------------- random histories
+
+func c20xRandomHistory(c *c20xCase, r *vRand) {
+	h, w := c.h, c.w
+	nSteps := r.Range(3, 8)
+	if r.Chance(1, 12) {
+		nSteps = r.Range(9, 12)
+	}
+	h.Tag(fmt.Sprintf("hsteps:%d", nSteps))
+	forced := []string{}
+	if !r.Chance(1, 8) {
+		switch r.Intn(4) {
+		case 0:
+			forced = []string{"cm", "node"}
+		case 1:
+			forced = []string{"node", "cm"}
+		case 2:
+			forced = []string{"node", "cm", "node"}
+		default:
+			forced = []string{"cm", "node", "node"}
+		}
+	}
+	for stp := 0; stp < nSteps; stp++ {
+		kind := ""
+		if stp < len(forced) {
+			kind = forced[stp]
+		} else {
+			x := r.Intn(100)
+			switch {
+			case x < 45:
+				kind = "cm"
+			case x < 50:
+				kind = "cmdel"
+			case x < 53:
+				kind = "foreign"
+			case x < 65:
+				kind = "node"
+			case x < 85:
+				kind = "relabel"
+			case x < 88:
+				kind = "touch"
+			case x < 93:
+				kind = "nodedel"
+			default:
+				kind = "restart"
+			}
+		}
+		if (kind == "relabel" || kind == "touch" || kind == "nodedel") && len(c.nodes) == 0 {
+			kind = "node"
+		}
+		if kind == "node" && len(c.nodes) >= 3 {
+			kind = "relabel"
+		}
+		if kind == "cmdel" && w.cmObj == nil {
+			kind = "cm"
+		}
+		names := c.names()
+		switch kind {
+		case "cm":
+			if w.cmObj == nil { // ---- create
+				for s := 0; s < 5; s++ {
+					c.cur[s] = c20SecRaw{state: 0}
+					if r.Bool() {
+						c.cur[s] = c20GenSection(r, s)
+					}
+				}
+				c.extra = map[string]string{}
+				if r.Chance(1, 5) {
+					c.extra[c20xExtraKeys[0]] = `{"enable":true}`
+				}
+				c.dataNil = r.Bool()
+				c.stepCMWrite("create")
+				continue
+			}
+			variation := ""
+			present, absent := []int{}, []int{}
+			for s := 0; s < 5; s++ {
+				if c.cur[s].state != 0 {
+					present = append(present, s)
+				} else {
+					absent = append(absent, s)
+				}
+			}
+			switch x := r.Intn(20); {
+			case x < 2:
+				variation = "nothing"
+			case x < 4:
+				variation = "other-key"
+				k := c20xExtraKeys[r.Intn(2)]
+				if _, ok := c.extra[k]; ok && r.Bool() {
+					delete(c.extra, k)
+				} else {
+					c.extra[k] = fmt.Sprintf(`{"v":%d}`, r.Intn(3))
+				}
+			case x < 7 && len(present) > 0:
+				variation = "remove-key"
+				for i, s := range r.Perm(len(present)) {
+					if i == 0 || r.Chance(1, 4) {
+						c.cur[present[s]] = c20SecRaw{state: 0}
+					}
+				}
+			case x < 9 && len(absent) > 0:
+				variation = "add-key"
+				s := absent[r.Intn(len(absent))]
+				c.cur[s] = c20GenSection(r, s)
+				if c.cur[s].state == 0 {
+					c.cur[s] = c20SecRaw{state: 2, text: "{}"}
+				}
+			case x < 15 && len(present) > 0:
+				s := present[r.Intn(len(present))]
+				cp := c20xCopySec(c.cur[s])
+				if tag := c20xMutate(r, s, &cp); tag != "" {
+					cp.text = c20xRender(s, cp)
+					c.cur[s] = cp
+					variation = "edit:" + tag
+				} else {
+					c.cur[s] = c20GenSection(r, s)
+					variation = "regen"
+				}
+			case x < 16 && len(present) > 0:
+				variation = "break"
+				s := present[r.Intn(len(present))]
+				c.cur[s] = c20SecRaw{state: 1, text: []string{"invalid_content", "{", "[]", ""}[r.Intn(4)]}
+			default:
+				variation = "regen"
+				for i, s := range r.Perm(5) {
+					if i == 0 || r.Chance(1, 5) {
+						c.cur[s] = c20GenSection(r, s)
+					}
+				}
+			}
+			if r.Chance(1, 10) {
+				c.dataNil = !c.dataNil
+			}
+			c.stepCMWrite(variation)
+		case "cmdel":
+			c.stepCMDelete()
+		case "foreign":
+			c.stepForeign(r.Bool(), r.Bool())
+		case "node":
+			nm := 1
+			for c.nodes[nm] != nil {
+				nm++
+			}
+			c.stepNodeAdd(nm, c20xGenLabels(r))
+		case "relabel", "touch":
+			nm := names[r.Intn(len(names))]
+			oldLabels := c.nodes[nm]
+			labels := oldLabels
+			if kind == "relabel" {
+				labels = c20xGenLabels(r)
+				if r.Chance(1, 3) { // flip exactly one label: moves between selector layers
+					labels = map[int]int{}
+					for k, v := range oldLabels {
+						labels[k] = v
+					}
+					k := r.Range(1, 3)
+					if _, ok := labels[k]; ok && r.Bool() {
+						delete(labels, k)
+					} else {
+						labels[k] = 1 + (labels[k] % 2)
+					}
+				}
+			}
+			c.stepNodeUpdate(nm, labels, kind == "touch")
+		case "nodedel":
+			c.stepNodeDelete(names[r.Intn(len(names))])
+		case "restart":
+			c.stepRestart(r.Bool())
+		}
+	}
+}
+
+// ---------------------------------------------------------------- exhaustive small scope (thorough tier)
+
+// Every history of <= 4 steps over a 10-letter alphabet, for each of three sections whose built-in default leaves
+// fields unset (qos, system, host applications): ConfigMap texts T1 (cluster sets a field), T2 (cluster + an entry for la=x
+// that sets another field), T3 (unparsable), T0 (the key removed), ConfigMap deletion, one node added with la=x / relabelled
+// x<->y / deleted, restart.  Set -> unset transitions of every kind occur in all orders.
+func TestVerifC20HistExhaustive(t *testing.T) {
+	h := vOpen("C20")
+	if h == nil {
+		t.Skip("VERIF_OUT not set")
+	}
+	env := c20xNewEnv()
+	selX := c20Sel{kind: 2, reqs: []c20Req{{key: 1, op: 0, vals: []int{1}}}, json: c20J{"matchLabels": c20J{"la": "x"}}}
+	app := func(name string) []interface{} {
+		return []interface{}{c20J{"name": name, "qos": "LS"}}
+	}
+	texts := func(sec, k int) c20SecRaw {
+		switch k {
+		case 0:
+			return c20SecRaw{state: 0}
+		case 3:
+			return c20SecRaw{state: 1, text: "{"}
+		}
+		raw := c20SecRaw{state: 2}
+		switch sec {
+		case 1:
+			raw.cluster = c20J{"lsClass": c20J{"cpuQOS": c20J{"groupIdentity": int64(2)}}}
+			if k == 2 {
+				raw.nodes = []c20NodeRaw{{sel: selX, strat: c20J{"beClass": c20J{"memoryQOS": c20J{"wmarkRatio": int64(50)}}}}}
+			}
+		case 3:
+			raw.cluster = c20J{"schedIdleSaverWmark": int64(3)}
+			if k == 2 {
+				raw.nodes = []c20NodeRaw{{sel: selX, strat: c20J{"schedGroupIdentityEnabled": int64(1), "totalNetworkBandwidth": "1G"}}}
+			}
+		default:
+			raw.apps = app("nginx")
+			if k == 2 {
+				raw.nodes = []c20NodeRaw{{sel: selX, apps: append(app("redis"), app("agent")...)}}
+			}
+		}
+		raw.text = c20xRender(sec, raw)
+		return raw
+	}
+	const letters = 10
+	idx := 0
+	var run func(sec int, hist []int)
+	run = func(sec int, hist []int) {
+		if len(hist) > 0 {
+			r := h.Begin(idx)
+			idx++
+			if r != nil {
+				c := env.newCase(h)
+				h.Tag(fmt.Sprintf("xsec:%s", c20SecNames[sec]))
+				h.Tag(fmt.Sprintf("xlen:%d", len(hist)))
+				for _, l := range hist {
+					switch {
+					case l <= 3: // write text l
+						c.cur[sec] = texts(sec, l)
+						c.stepCMWrite(fmt.Sprintf("x-text%d", l))
+					case l == 4:
+						if c.w.cmObj != nil {
+							c.stepCMDelete()
+						} else {
+							c.stepForeign(true, true)
+						}
+					case l == 5, l == 6: // node present with la=x (5) / la=y (6): add or relabel
+						labels := map[int]int{1: l - 4}
+						if c.nodes[1] == nil {
+							c.stepNodeAdd(1, labels)
+						} else {
+							c.stepNodeUpdate(1, labels, false)
+						}
+					case l == 7:
+						if c.nodes[1] != nil {
+							c.stepNodeDelete(1)
+						} else if c.nodes[2] == nil {
+							c.stepNodeAdd(2, map[int]int{2: 1})
+						} else {
+							c.stepNodeDelete(2)
+						}
+					default:
+						c.stepRestart(l == 8)
+					}
+				}
+				c.finish()
+			}
+		}
+		if len(hist) == 4 {
+			return
+		}
+		for l := 0; l < letters; l++ {
+			run(sec, append(append([]int{}, hist...), l))
+		}
+	}
+	for _, sec := range []int{1, 3, 4} {
+		run(sec, nil)
+	}
+	h.Close("EXHAUSTIVE: every history of 1-4 steps over {write text T0 (key removed) / T1 (cluster field) / T2 (cluster + la=x entry) / T3 (unparsable), delete ConfigMap, " +
+		"node la=x, node la=y, node delete (or second node), restart cm-first / nodes-first} for each of the sections qos, system, host; non-trivial = a delivered field goes from set to unset")
 }
